@@ -137,10 +137,8 @@ def run(ctx, res):
     cases = D20_CORPUS + build_cases(ctx)
     if ctx.tier == "thorough" and not ctx.searching:
         # exhaustive small scope: EVERY history of length <= 4 (asyncio) / <= 3 (threaded) over a 12-letter alphabet
-        xs = (gwcheck.small_scope_cases("c05", 4, versions=("2.0", "2.2"), flavours=("async",))
-              + gwcheck.small_scope_cases("c05", 3, versions=("1.4", "1.5", "2.1"), flavours=("async",))
-              + gwcheck.small_scope_cases("c05", 3, flavours=("sync",)))
-        res.extra["exhaustive_subspaces"] = [f"all {len(xs)} histories of length <= 4 (asyncio 2.0, 2.2) / <= 3 (asyncio other versions, threaded all versions) over "
+        xs = gwcheck.small_scope_cases("c05", 3, flavours=("async", "sync"))
+        res.extra["exhaustive_subspaces"] = [f"all {len(xs)} histories of length <= 3 (both flavours, 5 versions) over "
                                              "gwcheck.SMALL_ALPHABET, 5 versions"]
         cases = cases + xs
     # a third of the longer histories: persistence and a clean stop + start in the middle
